@@ -215,3 +215,106 @@ func c32noAliasing(g *c32gen) {
 		})
 	}
 }
+
+// C32, codec/received-values-stay: a value the node decoded and handed to the application (a
+// query response on ResponseCh, a user event, a query) still reads the same after the NEXT message
+// of that kind has been received and decoded: "decodes to an equivalent value" must not hold only
+// until the decoder is used again. Every ordered pair of payloads (lengths 0..4 x two fillers).
+func c32receivedStay(g *c32gen) {
+	scn := g.ctx.Scn("codec/received-values-stay", "cases")
+	if !g.mine() {
+		return
+	}
+	var payloads [][]byte
+	for _, n := range []int{0, 1, 3, 8, 40} {
+		payloads = append(payloads, bytes.Repeat([]byte{'A'}, n), bytes.Repeat([]byte{'b'}, n))
+	}
+	c32exec(g.ctx, scn.Name, nil, "received-values-stay", func() {
+		vsched.Branching(false)
+		vsched.SetHorizon(0)
+		node := c32must(world.NewNode("rcv", 0))
+		vsched.Quiesce()
+		node.DrainEvents()
+		ctr := 0
+		for i, p1 := range payloads {
+			for j, p2 := range payloads {
+				if i == j {
+					continue
+				}
+				ctr++
+				bad := func(kind string, got []byte) {
+					g.ctx.Violation(scn.Name, "codec: a received "+kind+" changes after the next one is received", fmt.Sprintf("%s #1 was sent with payload %q and delivered to the application; after %s #2 with payload %q had been received, the payload of #1 held by the application reads %q", kind, p1, kind, p2, got), map[string]interface{}{"kind": kind, "first": string(p1), "second": string(p2)})
+				}
+				out := "stable"
+				// query responses of two nodes to one open query
+				qr, err := node.S.Query(fmt.Sprintf("q%d", ctr), nil, &serf.QueryParam{Timeout: 10 * time.Second})
+				if err != nil {
+					panic("verifharness/ query: " + err.Error())
+				}
+				lt, id := serf.VQueryInfo(qr)
+				vsched.Quiesce()
+				node.DrainEvents()
+				take := func() *serf.NodeResponse {
+					select {
+					case r, ok := <-qr.ResponseCh():
+						if ok {
+							return &r
+						}
+					default:
+					}
+					return nil
+				}
+				node.Delegate().NotifyMsg(c32mustEnc(serf.VMsgQueryResponse, &serf.VMessageQueryResponse{LTime: serf.LamportTime(lt), ID: id, From: "b", Payload: append([]byte{}, p1...)}, false))
+				vsched.Quiesce()
+				r1 := take()
+				node.Delegate().NotifyMsg(c32mustEnc(serf.VMsgQueryResponse, &serf.VMessageQueryResponse{LTime: serf.LamportTime(lt), ID: id, From: "c", Payload: append([]byte{}, p2...)}, false))
+				vsched.Quiesce()
+				r2 := take()
+				if r1 == nil || r2 == nil {
+					panic("verifharness/ a query response was not delivered")
+				}
+				if !bytes.Equal(r1.Payload, p1) {
+					bad("query response", r1.Payload)
+					out = "changed"
+				}
+				if !bytes.Equal(r2.Payload, p2) {
+					g.ctx.Violation(scn.Name, "codec: a received query response differs from what was sent", fmt.Sprintf("sent %q, delivered %q", p2, r2.Payload), nil)
+					out = "changed"
+				}
+				qr.Close()
+				// user events and queries received from the network
+				var held []serf.Event
+				for k, p := range [][]byte{p1, p2} {
+					node.Delegate().NotifyMsg(c32mustEnc(serf.VMsgUserEvent, &serf.VMessageUserEvent{LTime: serf.LamportTime(1000 + 2*ctr + k), Name: "u", Payload: append([]byte{}, p...)}, false))
+					node.Delegate().NotifyMsg(c32mustEnc(serf.VMsgQuery, &serf.VMessageQuery{LTime: serf.LamportTime(100000 + 2*ctr + k), ID: uint32(2*ctr + k), Addr: world.NodeIP(7), Port: 7946, SourceNode: "o", Flags: uint32(serf.VQueryFlagNoBroadcast), Timeout: time.Second, Name: "x", Payload: append([]byte{}, p...)}, false))
+					vsched.Quiesce()
+					held = append(held, node.DrainEvents()...)
+				}
+				nu, nq := 0, 0
+				for _, ev := range held {
+					switch e := ev.(type) {
+					case serf.UserEvent:
+						want := [][]byte{p1, p2}[nu%2]
+						nu++
+						if !bytes.Equal(e.Payload, want) {
+							bad("user event", e.Payload)
+							out = "changed"
+						}
+					case *serf.Query:
+						want := [][]byte{p1, p2}[nq%2]
+						nq++
+						if !bytes.Equal(e.Payload, want) {
+							bad("query", e.Payload)
+							out = "changed"
+						}
+					}
+				}
+				if nu != 2 || nq != 2 {
+					panic(fmt.Sprintf("verifharness/ %d user events and %d queries were delivered, want 2 and 2", nu, nq))
+				}
+				scn.Case(out, true)
+			}
+		}
+		node.S.Shutdown()
+	})
+}
